@@ -1,6 +1,8 @@
 import Lemmas.Files.Walk
 import Lemmas.Files.Load
 import Lemmas.Files.RevMap
+import Lemmas.Files.Split
+import Lemmas.Files.Twin
 /-!
 # C19 — every revision file in the configured locations is loaded exactly once
 
@@ -63,8 +65,8 @@ def NoInitPrefixed (fs : FS) (cfg : Cfg) (locs : List Dir) : Prop :=
 
 /-- **Every one** — full-strength statement: every revision file present in the configured
 locations is loaded. -/
-def loaded_complete_statement : Prop :=
-  ∀ (fs : FS) (cfg : Cfg) (locs : List Dir) (r : Result), RootsOk locs →
+def loaded_complete_statement (initDot : Bool) : Prop :=
+  ∀ (fs : FS) (cfg : Cfg) (locs : List Dir) (r : Result), cfg.initDot = initDot → RootsOk locs →
     load fs cfg locs = .ok r → ∀ n, Expected fs cfg locs n → n ∈ nodesOf r
 
 /-- the witness: one version location `va` holding `__init__x.py` (revision `r1`) -/
@@ -72,13 +74,13 @@ def witnessFS : FS :=
   { node := fun _ => { dir := 0, name := "__init__x.py".toList, content := .rev ['r', '1'] }
     exists_ := fun _ _ => false }
 def witnessLocs : List Dir := [⟨"va".toList, [⟨"__init__x.py".toList, 0⟩], .nil⟩]
-def witnessCfg : Cfg := { sourceless := false, recursive := false }
+def witnessCfg : Cfg := { sourceless := false, recursive := false, initDot := false }
 
 /-- The unchanged code violates it: a file whose name merely starts with `__init__` is
 silently skipped (finding C19-F13; the same witness is replayed on the implementation). -/
-theorem loaded_complete_counterexample : ¬ loaded_complete_statement := by
+theorem loaded_complete_counterexample : ¬ loaded_complete_statement false := by
   intro hst
-  have hl : load witnessFS witnessCfg witnessLocs = .ok ⟨[], [], [], []⟩ := by decide
+  have hl : load witnessFS witnessCfg witnessLocs = .ok ⟨[], [], [], []⟩ := by rfl
   have hroots : RootsOk witnessLocs := by
     intro r hr
     simp only [witnessLocs, List.mem_singleton] at hr
@@ -86,25 +88,28 @@ theorem loaded_complete_counterexample : ¬ loaded_complete_statement := by
     decide
   have hexp : Expected witnessFS witnessCfg witnessLocs 0 := by
     refine ⟨⟨_, List.mem_singleton.mpr rfl, _, .root (by decide), Or.inl ⟨_, List.mem_singleton.mpr rfl, rfl⟩⟩, by decide⟩
-  have := hst witnessFS witnessCfg witnessLocs _ hroots hl 0 hexp
+  have := hst witnessFS witnessCfg witnessLocs _ rfl hroots hl 0 hexp
   simp [nodesOf] at this
 
 /-- **Every one** — what holds of the unchanged code: every revision file present in the
 configured locations is loaded, *provided* no reached file name starts with `__init__`
 other than the module `__init__` itself. -/
 theorem loaded_complete_partial (fs : FS) (cfg : Cfg) (locs : List Dir) (r : Result)
-    (hroots : RootsOk locs) (hinit : NoInitPrefixed fs cfg locs)
+    (hroots : RootsOk locs) (hinit : cfg.initDot = true ∨ NoInitPrefixed fs cfg locs)
     (h : load fs cfg locs = .ok r) : ∀ n, Expected fs cfg locs n → n ∈ nodesOf r := by
   intro n ⟨hreach, hrev⟩
   obtain ⟨_, _, _, h4⟩ := loadLoop_ok_inv fs cfg _ [] r.loaded r.twice (load_ok h).1
   obtain ⟨e, he, hn⟩ := (listed_iff_reached cfg locs hroots n).mpr hreach
-  have hnotinit : startsWith initPrefix (fs.node n).name = false := by
-    cases hp : startsWith initPrefix (fs.node n).name with
-    | false => rfl
-    | true =>
-      have hi := hinit n hreach hp
-      unfold isRevFile at hrev
-      simp [hi] at hrev
+  have hnotinit : cfg.initDot = true ∨ startsWith initPrefix (fs.node n).name = false := by
+    rcases hinit with hd | hinit
+    · exact Or.inl hd
+    · right
+      cases hp : startsWith initPrefix (fs.node n).name with
+      | false => rfl
+      | true =>
+        have hi := hinit n hreach hp
+        unfold isRevFile at hrev
+        simp [hi] at hrev
   have hacc : accepts fs cfg e.node = true := by
     rw [hn]; exact isRevFile_accepts fs cfg n hrev hnotinit
   obtain ⟨s, hs, hsn⟩ := h4 e he (by simp) hacc
@@ -113,10 +118,22 @@ theorem loaded_complete_partial (fs : FS) (cfg : Cfg) (locs : List Dir) (r : Res
 /-- **Exactly once** (partial form, see `loaded_complete_counterexample`): the loaded canonical
 files are exactly the expected ones, each once. -/
 theorem exact_partial (fs : FS) (cfg : Cfg) (locs : List Dir) (r : Result)
-    (hroots : RootsOk locs) (hinit : NoInitPrefixed fs cfg locs) (h : load fs cfg locs = .ok r) :
+    (hroots : RootsOk locs) (hinit : cfg.initDot = true ∨ NoInitPrefixed fs cfg locs) (h : load fs cfg locs = .ok r) :
     (∀ n, n ∈ nodesOf r ↔ Expected fs cfg locs n) ∧ (nodesOf r).Nodup :=
   ⟨fun n => ⟨loaded_sound fs cfg locs r hroots h n, loaded_complete_partial fs cfg locs r hroots hinit h n⟩,
    loaded_once fs cfg locs r h⟩
+
+/-- **Every one**, for the repaired look-ahead `(?!\.\#|__init__\.)`: the full-strength statement
+holds (this is the theorem that applies once finding C19-F13 is fixed in the source; the harness
+selects `initDot` from the behaviour of the regexes of the tree under test). -/
+theorem loaded_complete_fixed : loaded_complete_statement true :=
+  fun fs cfg locs r hd hroots h => loaded_complete_partial fs cfg locs r hroots (Or.inl hd) h
+
+/-- **Exactly once**, full strength, for the repaired look-ahead. -/
+theorem exact_fixed (fs : FS) (cfg : Cfg) (locs : List Dir) (r : Result) (hd : cfg.initDot = true)
+    (hroots : RootsOk locs) (h : load fs cfg locs = .ok r) :
+    (∀ n, n ∈ nodesOf r ↔ Expected fs cfg locs n) ∧ (nodesOf r).Nodup :=
+  exact_partial fs cfg locs r hroots (Or.inl hd) h
 
 /-! ## failures are loud -/
 
@@ -171,6 +188,21 @@ theorem dup_id (fs : FS) (cfg : Cfg) (locs : List Dir) (r : Result) (h : load fs
     · have := hid s hs; rw [hdn] at this; exact (Option.some.inj this).symm
     · have := hid t ht; rw [hdm] at this; exact (Option.some.inj this).symm
 
+/-- **Duplicates reported**, in terms of the files that must be loaded (needs exactness, hence the
+same side condition as `exact_partial`; unconditional for the repaired look-ahead). -/
+theorem dup_id_expected (fs : FS) (cfg : Cfg) (locs : List Dir) (r : Result) (hroots : RootsOk locs)
+    (hinit : cfg.initDot = true ∨ NoInitPrefixed fs cfg locs) (h : load fs cfg locs = .ok r) (x : Name) :
+    x ∈ r.dupWarn ↔
+      ∃ n m, n ≠ m ∧ Expected fs cfg locs n ∧ Expected fs cfg locs m ∧
+        definesId fs n = some x ∧ definesId fs m = some x := by
+  rw [dup_id fs cfg locs r h x]
+  have hex := (exact_partial fs cfg locs r hroots hinit h).1
+  constructor
+  · rintro ⟨n, hn, m, hm, hne, h1, h2⟩
+    exact ⟨n, m, hne, (hex n).mp hn, (hex m).mp hm, h1, h2⟩
+  · rintro ⟨n, m, hne, hn, hm, h1, h2⟩
+    exact ⟨n, (hex n).mpr hn, m, (hex m).mpr hm, hne, h1, h2⟩
+
 /-- The keys of the revision map are exactly the ids of the loaded scripts, each key once. -/
 theorem map_keys (fs : FS) (cfg : Cfg) (locs : List Dir) (r : Result) (h : load fs cfg locs = .ok r) :
     (∀ x, x ∈ r.keys ↔ ∃ s ∈ r.loaded, s.rev = x) ∧ r.keys.Nodup := by
@@ -179,6 +211,71 @@ theorem map_keys (fs : FS) (cfg : Cfg) (locs : List Dir) (r : Result) (h : load 
   refine ⟨fun x => ?_, revMapLoop_keys_nodup r.loaded [] List.nodup_nil⟩
   rw [revMapLoop_keys x r.loaded []]
   simp
+
+/-! ## `version_locations` splitting -/
+
+/-- **Splitting, named separators.** For every valid `version_path_separator` value `opt`
+(mapping to the character `c`; `os` ↦ the platform's `os.pathsep`), an option string made of
+listed paths joined by `c` — each path non-empty, not containing `c`, without surrounding white
+space — is split into exactly the listed paths. -/
+theorem split (pathsep : Char) (opt : String) (c : Char)
+    (hopt : sepOfOption pathsep (some opt) = some (.char c))
+    (paths : List Name) (hne : paths ≠ []) (h : ∀ p ∈ paths, CleanFor c p) :
+    configLocations pathsep (some opt) (some (joinSep [c] paths)) = some (some paths) := by
+  have hj := joinSep_ne_nil [c] paths hne (fun p hp => (h p hp).1)
+  have hs := splitLocations_char c paths h
+  unfold configLocations versionLocations
+  cases hjs : joinSep [c] paths with
+  | nil => exact absurd hjs hj
+  | cons x xs =>
+    simp only [hopt]
+    rw [← hjs, hs]
+    cases paths with
+    | nil => exact absurd rfl hne
+    | cons _ _ => rfl
+
+/-- **Splitting, legacy.** Without `version_path_separator`, listed paths (non-empty, without
+space and comma) joined by a run of spaces or by a comma followed by spaces are split into exactly
+the listed paths. -/
+theorem split_legacy (pathsep : Char) (j : Name) (hj : LegacyJoiner j)
+    (paths : List Name) (hne : paths ≠ []) (h : ∀ p ∈ paths, CleanLegacy p) :
+    configLocations pathsep none (some (joinSep j paths)) = some (some paths) := by
+  have hjn := joinSep_ne_nil j paths hne (fun p hp => (h p hp).1)
+  have hs := legacySplit_joinSep j hj paths hne h false
+  unfold configLocations versionLocations
+  cases hjs : joinSep j paths with
+  | nil => exact absurd hjs hjn
+  | cons x xs =>
+    simp only [sepOfOption, splitLocations, legacySplit]
+    rw [← hjs, hs]
+    cases paths with
+    | nil => exact absurd rfl hne
+    | cons _ _ => rfl
+
+/-- the separator table of `from_config` (a finite table) -/
+example : sepOfOption ':' (some "space") = some (.char ' ') ∧ sepOfOption ':' (some "newline") = some (.char '\n') ∧
+    sepOfOption ':' (some "os") = some (.char ':') ∧ sepOfOption ';' (some "os") = some (.char ';') ∧
+    sepOfOption ':' (some ":") = some (.char ':') ∧ sepOfOption ':' (some ";") = some (.char ';') ∧
+    sepOfOption ':' (some "comma") = none := by decide
+example : CleanFor ':' "/a/b c".toList ∧ CleanLegacy "/a/b".toList ∧ LegacyJoiner ", ".toList :=
+  ⟨⟨by decide, by decide, by decide⟩, ⟨by decide, by decide, by decide⟩, Or.inr ⟨1, rfl⟩⟩
+example : configLocations ':' (some "os") (some "/a/b c:/d".toList) = some (some ["/a/b c".toList, "/d".toList]) := by decide
+
+/-! ## the oracle applied to the implementation's output is the specification -/
+
+/-- The list computed by the driver's `files.spec` op is the set `Expected`. -/
+theorem checker_expected (fs : FS) (cfg : Cfg) (locs : List Dir) (n : Nat) :
+    n ∈ expectedNodes fs cfg locs ↔ Expected fs cfg locs n := mem_expectedNodes_iff fs cfg locs n
+
+/-- `judge`'s fields `once`, `onlyExpected`, `allExpected` hold of a reported result iff the
+reported canonical files are exactly the expected ones, each once. -/
+theorem checker_exact (fs : FS) (cfg : Cfg) (locs : List Dir)
+    (loaded : List (Nat × Name)) (keys dupWarn : List Name) :
+    ((judge fs cfg locs loaded keys dupWarn).once = true ∧
+     (judge fs cfg locs loaded keys dupWarn).onlyExpected = true ∧
+     (judge fs cfg locs loaded keys dupWarn).allExpected = true) ↔
+    ((loaded.map (·.1)).Nodup ∧ ∀ n, n ∈ loaded.map (·.1) ↔ Expected fs cfg locs n) :=
+  judge_exact_iff fs cfg locs loaded keys dupWarn
 
 /-! ## non-vacuity -/
 
@@ -198,15 +295,26 @@ def sampleLocs : List Dir :=
   [⟨"va".toList, [⟨".#a.py".toList, 3⟩, ⟨"__init__.py".toList, 2⟩, ⟨"a.py".toList, 0⟩, ⟨"a.pyc".toList, 1⟩, ⟨"ln.py".toList, 4⟩],
       .cons "sub".toList [⟨"b.py".toList, 4⟩, ⟨"c.pyc".toList, 5⟩] .nil .nil⟩]
 
-example : load sampleFS ⟨true, true⟩ sampleLocs =
-    .ok ⟨[⟨0, ['a']⟩, ⟨4, ['a']⟩, ⟨5, ['c']⟩], [4], [['a'], ['c']], [['a']]⟩ := by decide
+example : load sampleFS ⟨true, true, false⟩ sampleLocs =
+    .ok ⟨[⟨0, ['a']⟩, ⟨4, ['a']⟩, ⟨5, ['c']⟩], [4], [['a'], ['c']], [['a']]⟩ := by rfl
 example : RootsOk sampleLocs := by
   intro r hr; simp only [sampleLocs, List.mem_singleton] at hr; subst hr; decide
-example : (judge sampleFS ⟨true, true⟩ sampleLocs [(0, ['a']), (4, ['a']), (5, ['c'])] [['a'], ['c']] [['a']]).holds = true := by decide
+example : (judge sampleFS ⟨true, true, false⟩ sampleLocs [(0, ['a']), (4, ['a']), (5, ['c'])] [['a'], ['c']] [['a']]).holds = true := by decide
+/-- with the repaired look-ahead the witness of `loaded_complete_counterexample` is loaded -/
+example : load witnessFS { witnessCfg with initDot := true } witnessLocs =
+    .ok ⟨[⟨0, ['r', '1']⟩], [], [['r', '1']], []⟩ := by rfl
+/-- the side condition of the partial theorems is satisfiable -/
+example : NoInitPrefixed sampleFS ⟨true, true, false⟩ sampleLocs := by
+  intro n _ hp
+  unfold sampleFS at hp ⊢
+  match n with
+  | 0 | 1 | 3 | 4 => simp only at hp; revert hp; decide
+  | 2 => decide
+  | _ + 5 => simp only at hp; exact absurd hp (by decide)
 /-- the recogniser rejects an output that skips a file, loads one twice, or hides the duplicate -/
-example : (judge sampleFS ⟨true, true⟩ sampleLocs [(0, ['a']), (5, ['c'])] [['a'], ['c']] []).allExpected = false := by decide
-example : (judge sampleFS ⟨true, true⟩ sampleLocs [(0, ['a']), (4, ['a']), (4, ['a']), (5, ['c'])] [['a'], ['c']] [['a']]).once = false := by decide
-example : (judge sampleFS ⟨true, true⟩ sampleLocs [(0, ['a']), (4, ['a']), (5, ['c'])] [['a'], ['c']] []).dupReported = false := by decide
-example : (judge sampleFS ⟨true, true⟩ sampleLocs [(1, ['z']), (4, ['a']), (5, ['c'])] [['z'], ['a'], ['c']] []).onlyExpected = false := by decide
+example : (judge sampleFS ⟨true, true, false⟩ sampleLocs [(0, ['a']), (5, ['c'])] [['a'], ['c']] []).allExpected = false := by decide
+example : (judge sampleFS ⟨true, true, false⟩ sampleLocs [(0, ['a']), (4, ['a']), (4, ['a']), (5, ['c'])] [['a'], ['c']] [['a']]).once = false := by decide
+example : (judge sampleFS ⟨true, true, false⟩ sampleLocs [(0, ['a']), (4, ['a']), (5, ['c'])] [['a'], ['c']] []).dupReported = false := by decide
+example : (judge sampleFS ⟨true, true, false⟩ sampleLocs [(1, ['z']), (4, ['a']), (5, ['c'])] [['z'], ['a'], ['c']] []).onlyExpected = false := by decide
 
 end C19
